@@ -90,6 +90,7 @@ def setindex(x, i, v):
     return x
 def add(x, y): return x + y
 def mul(x, y): return x * y
+def mod(x, y): return x % y
 def mkrange(a, b, c): return range(a, b, c)
 `
 
@@ -262,6 +263,8 @@ func run(c *Case) {
 		fn := prelude["add"]
 		if c.Name == "*" {
 			fn = prelude["mul"]
+		} else if c.Name == "%" {
+			fn = prelude["mod"]
 		}
 		c.Obs = callSafe(fn, starlark.Tuple{toStarlark(*c.X), toStarlark(c.Args[0])})
 	default:
@@ -314,7 +317,16 @@ func (s *sink) do(c Case) {
 		hx.Emit(c)
 		return
 	}
-	if want, wantAfter, ok := oracle(&c); ok {
+	want, wantAfter, ok := oracle(&c)
+	if !ok {
+		// no Go copy of the specification for this operation (format, %, sorted, min, max):
+		// CPython is the only oracle
+		c.K = "py"
+		s.pyN++
+		hx.Emit(c)
+		return
+	}
+	if ok {
 		bad := !sameV(want, c.Obs)
 		if !bad && wantAfter != nil && c.After != nil && !sameV(*wantAfter, *c.After) {
 			bad = true
@@ -387,6 +399,8 @@ func main() {
 	lap("seq")
 	genRandom(s, quick)
 	lap("random")
+	genPyOnly(s, quick)
+	lap("cpython-only")
 	riskyParent(s, quick, *seed)
 	lap("risky")
 	type kv struct {
